@@ -1010,7 +1010,7 @@ func emitWeights(c *Ctx) {
 		bs = randFrom(r, []byte("{}[]\":,0123456789.eE-+ntfalsrue Tempo\\"), r.Intn(24))
 		c.Count("weights.random")
 	}
-	out := c.Emit("weights " + hexEnc(bs) + " " + jsonMapRes(bs))
+	out := c.Emit("weightsjson " + hexEnc(bs) + " " + jsonMapRes(bs))
 	c.Count("weights=" + strings.Fields(out+" x")[0])
 }
 
